@@ -60,6 +60,14 @@ void snapshot_into(const std::string & d, const std::string & prefix, std::vecto
         struct stat st{};
         if (lstat(p.c_str(), &st) != 0) continue;
         if (S_ISDIR(st.st_mode)) { items.push_back(hex(nm(prefix + n)) + "/"); snapshot_into(p, prefix + n + "/", items); continue; }
+        if (S_ISLNK(st.st_mode))
+        {
+            // a symbolic link is an entry of its own (not followed): reported like a file whose content is the link's target
+            char tb[4096]; ssize_t tl = readlink(p.c_str(), tb, sizeof tb);
+            std::string t(tb, tl > 0 ? static_cast<std::size_t>(tl) : 0);
+            items.push_back(hex(nm(prefix + n)) + "=" + std::to_string(t.size()) + "." + std::to_string(fnv(t)));
+            continue;
+        }
         std::ifstream f(p, std::ios::binary);
         std::string c((std::istreambuf_iterator<char>(f)), std::istreambuf_iterator<char>());
         items.push_back(hex(nm(prefix + n)) + "=" + std::to_string(c.size()) + "." + std::to_string(fnv(c)));
@@ -102,6 +110,15 @@ std::string run(const std::vector<std::string> & a)
     if (a[2] != "-")
         for (const std::string & f : split(a[2], ';'))
         {
+            std::size_t at = f.find('@');
+            if (at != std::string::npos)
+            {
+                // name@target: a symbolic link (possibly dangling)
+                std::string name, target;
+                if (!unhex(f.substr(0, at), name) || !unhex(f.substr(at + 1), target)) { rmtree(dir); return "bad-op"; }
+                if (symlink(target.c_str(), (dir + "/" + name).c_str()) != 0) { rmtree(dir); return "bad-op"; }
+                continue;
+            }
             std::size_t eq = f.find('=');
             std::string name, content;
             if (eq == std::string::npos)
